@@ -52,8 +52,21 @@ def enabledNames (s : St) : List String :=
   (if dEnabled s then ["D"] else []) ++
   ((List.range s.ws.length).filter (wEnabled s)).map fun i => s!"W{i}"
 
+def showW : W → String
+  | .idle => "idle" | .started => "started" | .connecting => "connecting" | .connected => "connected"
+  | .tearing => "tearing" | .torn => "torn" | .locked => "locked" | .signaled => "signaled" | .done => "done"
+
+def showDPC : DPC → String
+  | .top => "top" | .wait => "wait" | .parked => "parked" | .woken => "woken" | .create => "create"
+  | .unlock => "unlock" | .dtop => "dtop" | .dwait => "dwait" | .dparked => "dparked" | .dwoken => "dwoken"
+  | .dunlock => "dunlock" | .finishing => "finishing" | .returned => "returned"
+
+def showOwner : Owner → String
+  | .none => "-" | .d => "D" | .w i => s!"W{i}"
+
+/-- one line, no line breaks (the protocol is line based) -/
 def showSt (s : St) : String :=
-  s!"dpc={repr s.dpc} i={s.i} tc={s.tc} own={repr s.own} sig={s.sig} ws={repr s.ws}"
+  s!"dpc={showDPC s.dpc} i={s.i} tc={s.tc} own={showOwner s.own} sig={s.sig} ws={",".intercalate (s.ws.map showW)}"
 
 def checkSt (s : St) (tc r p x : String) : Option String :=
   let en := enabledNames s
